@@ -155,9 +155,11 @@ type ctx struct {
 
 // cardVariant describes EF.CardSecurity of a variant.
 type cardVariant struct {
-	pki     *issuer.PKI
-	signKey *issuer.Key
-	mutate  func(*issuer.CMSSpec)
+	pki         *issuer.PKI
+	signKey     *issuer.Key
+	mutate      func(*issuer.CMSSpec)
+	signer      *issuer.Certificate // DS certificate of EF.CardSecurity; nil = the PKI's DS
+	signingTime *time.Time          // signing time of EF.CardSecurity; nil = the SOD's
 }
 
 // variant is one concrete (document, SOD, CardSecurity, trust store) to build.
@@ -222,6 +224,12 @@ func (c *ctx) signCard(cv *cardVariant) (*issuer.SignedData, error) {
 	}
 	o := c.cmsOptions()
 	o.SignKey, o.Mutate = cv.signKey, cv.mutate
+	if cv.signer != nil {
+		o.Signer = cv.signer
+	}
+	if cv.signingTime != nil {
+		o.SigningTime, o.NoSigningTime = cv.signingTime, false
+	}
 	return pki.SignCardSecurityDetailed(cardSecInfos, o)
 }
 
@@ -588,6 +596,82 @@ var attacks = []attack{
 		ap, err := attackerPKI(c, nil, issuer.SimpleName(c.b.Country, "Evil Authority", "CSCA", "CSCA "+c.b.Country))
 		g.card, b.card = &cardVariant{}, &cardVariant{pki: ap}
 		return g, b, err
+	}},
+	// EF.CardSecurity carries its own signing time and may be signed by another DS certificate than
+	// EF.SOD: its signer must be inside its validity period at THAT time, whatever the SOD says.
+	{name: "cardsecurity-ds-expired-at-its-own-signing-time", needTime: true, prepare: func(c *ctx) (variant, variant, error) {
+		g, b := c.baseVariant(), c.baseVariant()
+		t2 := c.t.Add(300 * 24 * time.Hour) // CardSecurity signed 300 days after the SOD
+		d := deltas[c.src.Intn(len(deltas))]
+		good, err := c.pki.IssueDS(c.pki.DSKey, c.pki.DS.Tmpl.Subject, func(dt *issuer.CertTemplate) {
+			dt.NotBefore, dt.NotAfter = c.t.Add(-100*24*time.Hour), t2
+		})
+		if err != nil {
+			return g, b, err
+		}
+		bad, err := c.pki.IssueDS(c.pki.DSKey, c.pki.DS.Tmpl.Subject, func(dt *issuer.CertTemplate) {
+			dt.NotBefore, dt.NotAfter = c.t.Add(-100*24*time.Hour), t2.Add(-d) // valid at the SOD's signing time, expired at its own
+		})
+		g.card, b.card = &cardVariant{signer: good, signingTime: &t2}, &cardVariant{signer: bad, signingTime: &t2}
+		return g, b, err
+	}},
+	{name: "cardsecurity-ds-not-yet-valid-at-its-own-signing-time", needTime: true, prepare: func(c *ctx) (variant, variant, error) {
+		g, b := c.baseVariant(), c.baseVariant()
+		t2 := c.t.Add(-300 * 24 * time.Hour) // CardSecurity signed 300 days before the SOD
+		d := deltas[c.src.Intn(len(deltas))]
+		good, err := c.pki.IssueDS(c.pki.DSKey, c.pki.DS.Tmpl.Subject, func(dt *issuer.CertTemplate) {
+			dt.NotBefore, dt.NotAfter = t2, c.t.Add(1000*24*time.Hour)
+		})
+		if err != nil {
+			return g, b, err
+		}
+		bad, err := c.pki.IssueDS(c.pki.DSKey, c.pki.DS.Tmpl.Subject, func(dt *issuer.CertTemplate) {
+			dt.NotBefore, dt.NotAfter = t2.Add(d), c.t.Add(1000*24*time.Hour) // valid at the SOD's signing time, not yet at its own
+		})
+		g.card, b.card = &cardVariant{signer: good, signingTime: &t2}, &cardVariant{signer: bad, signingTime: &t2}
+		return g, b, err
+	}},
+	// DG1 names an issuing state that has no ISO 3166 code (organisations, special codes, unassigned
+	// letters): it cannot be "the same issuing country" as any DS certificate's country.
+	{name: "dg1-non-iso-issuing-state-under-a-national-chain", prepare: func(c *ctx) (variant, variant, error) {
+		g, b := c.baseVariant(), c.baseVariant()
+		state := []string{"UNO", "UNA", "UNK", "XOM", "XPO", "XXA", "XXB", "XXC", "XXX", "EUE", "XCC", "XIM", "QQQ", "ZZZ", "AAA"}[c.src.Intn(15)]
+		d, _, err := issuer.BuildDG1State(c.src, state, c.b.Layout)
+		b.hashed[1], b.docDGs[1] = d, d // genuinely signed by the national DS, only the issuing state is foreign
+		return g, b, err
+	}},
+	// A forger without any key alters DG1 and the hash list, keeps the stale signature, and plays with
+	// the fields of the CMS structure that no signature covers (versions, digest algorithm set, embedded
+	// certificates): none of them may switch the verification off.
+	{name: "stale-signature-with-unsigned-cms-field-tweak", sdLevel: true, prepare: func(c *ctx) (variant, variant, error) {
+		g, b := c.baseVariant(), c.baseVariant()
+		e, err := evilDG1(c)
+		if err != nil {
+			return g, b, err
+		}
+		oldH, newH := issuer.Digest(c.b.LDSHash, c.dgs[1]), issuer.Digest(c.b.LDSHash, e)
+		b.docDGs[1] = e
+		tweak := c.src.Intn(8)
+		b.mutate = func(s *issuer.CMSSpec) {
+			s.EmitEContent = bytes.Replace(s.EContent, oldH, newH, 1)
+			switch tweak {
+			case 0:
+				s.Signers[0].Version = []int{2, 4, 5, 7, 127}[c.src.Intn(5)]
+			case 1:
+				s.Version = []int{1, 2, 4, 5, 127}[c.src.Intn(5)]
+			case 2:
+				s.DigestAlgorithms = []string{"sha1", "sha224", "sha256", "sha384", "sha512"}[c.src.Intn(5):][:1]
+			case 3:
+				s.Signers[0].Version, s.Version = 2, 1
+			case 4:
+				s.Signers[0].DigestNull = !s.Signers[0].DigestNull
+			case 5:
+				s.Signers = append(s.Signers, s.Signers[0]) // the same stale signer twice
+			case 6:
+				s.Signers[0].Unsigned = append(s.Signers[0].Unsigned, issuer.Attribute{OID: "1.2.840.113549.1.9.6", Values: [][]byte{der.Null()}})
+			}
+		}
+		return g, b, nil
 	}},
 	{name: "cardsecurity-content-tampered", prepare: func(c *ctx) (variant, variant, error) {
 		g, b := c.baseVariant(), c.baseVariant()
